@@ -5,10 +5,11 @@
 (* evaluates every primitive the law mentions; the dumped values are the expected results *)
 (* of the corresponding brax.math / brax.base functions on the same integers, where       *)
 (* float64 is exact.  Non-unit quaternions are fine: rotate(v, q) = |q|^2 R(q) v.         *)
-EXTENDS IntAlg, TLC, Randomization
+EXTENDS IntAlg, TLC, Randomization, Prng
 
 CONSTANTS Families,   \* which families to explore in this run
-          NSample     \* sample size for the families whose full grid is too large
+          NSample,    \* sample size for the families whose full grid is too large
+          SeedBase
 
 VARIABLES fam, inp, res, done
 vars == <<fam, inp, res, done>>
@@ -34,7 +35,7 @@ Init ==
      \/ fam = "tassoc"   /\ \E x \in Flat(21, T) : inp = [a |-> TrAt(x, 0), b |-> TrAt(x, 7), c |-> TrAt(x, 14)]
      \/ fam = "dual"     /\ \E x \in Flat(19, T) : inp = [t |-> TrAt(x, 0), m |-> MoAt(x, 7), f |-> MoAt(x, 13)]
      \/ fam = "cross"    /\ \E x \in Flat(18, B) : inp = [m |-> MoAt(x, 0), n |-> MoAt(x, 6), f |-> MoAt(x, 12)]
-     \/ fam = "wide"     /\ \E x \in Flat(26, -9..9) : inp = [t |-> TrAt(x, 0), u |-> TrAt(x, 7), m |-> MoAt(x, 14), f |-> MoAt(x, 20)]
+     \/ fam = "wide"     /\ \E x \in {[i \in 1..26 |-> GenV(SeedBase + k, 26, 19)[i] - 9] : k \in 1..NSample} : inp = [t |-> TrAt(x, 0), u |-> TrAt(x, 7), m |-> MoAt(x, 14), f |-> MoAt(x, 20)]
 
 Compute ==
   /\ ~done /\ done' = TRUE
